@@ -130,7 +130,6 @@ func (in *interp) transform(sc scope, t *Transform, viewRetSet bool) (*Val, erro
 			in.empties++
 		}
 		out := []*Val{}
-		seen := map[string]bool{}
 		for _, it := range arg.Items {
 			set(it)
 			rec, err := in.stmts(sc, t.Stmts)
@@ -141,11 +140,19 @@ func (in *interp) transform(sc scope, t *Transform, viewRetSet bool) (*Val, erro
 				if rec.hasUnordered() {
 					return nil, unpinned("set transform over records holding a list of unspecified order")
 				}
+				// compared with the records as they are now (the same thing as when they were
+				// made, unless the aliasing defect is being modelled)
+				dup := false
 				c := rec.canon()
-				if seen[c] {
+				for _, prev := range out {
+					if prev.canon() == c {
+						dup = true
+						break
+					}
+				}
+				if dup {
 					continue
 				}
-				seen[c] = true
 			}
 			out = append(out, rec)
 		}
@@ -605,6 +612,17 @@ func (in *interp) bin(op string, l, r *Val) (*Val, error) {
 				out = append(out, it)
 			}
 		}
+		// a set has no order; the elements are kept sorted so that iterating a union visits them
+		// in a fixed order
+		sort.SliceStable(out, func(i, j int) bool {
+			switch out[i].K {
+			case KInt:
+				return out[i].I < out[j].I
+			case KStr:
+				return out[i].S < out[j].S
+			}
+			return out[i].canon() < out[j].canon()
+		})
 		return &Val{K: KSet, Items: out}, nil
 	}
 	return nil, illTyped("no semantics for cell %s", c)
